@@ -30,6 +30,10 @@ def all_cases(tier):
         for L in range(1, 5):
             for seq in itertools.product(alphabet, repeat=L):
                 out.append({"kind": "onehot", "labels": list(seq)})
+                # the same labels in other containers: Python list, (n,1) column, list of 1-element arrays, float array
+                for cont in ("list", "column", "list_of_arrays") + (("float",) if alphabet[0] != "a" else ()):
+                    if L <= 3 or cont == "column":
+                        out.append({"kind": "onehot", "labels": list(seq), "container": cont})
     return out
 
 def judge(case):
@@ -126,7 +130,10 @@ def judge(case):
     if case["kind"] == "onehot":
         labels = case["labels"]
         try:
-            enc = np.asarray(D.one_hot_encode(np.array(labels)))
+            cont = case.get("container", "array")
+            arg = {"array": lambda: np.array(labels), "list": lambda: list(labels), "column": lambda: np.array(labels).reshape(-1, 1),
+                   "list_of_arrays": lambda: [np.array([l]) for l in labels], "float": lambda: np.array(labels, dtype=np.float32)}[cont]()
+            enc = np.asarray(D.one_hot_encode(arg))
         except Exception as e:
             v("raised", f"{type(e).__name__}: {str(e)[:80]}")
             return {"nontrivial": True, "outcome": "raise", "violations": viol}
@@ -150,7 +157,7 @@ def run(tier, seed):
     cov = {"evaluations": r["evaluations"], "distinct_nontrivial": r["distinct_nontrivial"],
            "rule": "split_dataset: n in 0..%d x test_split in {0,.1,.2,.25,.5,.75,1} x val_split in {None,0,.2,.5,1} x shuffle off / "
                    "EVERY permutation (n <= %d, scripted shuffle) / 3 real seeds; DataLoader: n in 0..10 x batch 1..6 x transform "
-                   "{omitted, None, identity callback, scaling callback} and label containers {1-D array, (n,1) column, (n,3) rows, Python lists}, two full passes + restart after a partial pass; one_hot_encode: "
+                   "{omitted, None, identity callback, scaling callback} and label containers {1-D array, (n,1) column, (n,3) rows, Python lists}, two full passes + restart after a partial pass; one_hot_encode (labels as 1-D array, Python list, (n,1) column, list of 1-element arrays, float array): "
                    "every label sequence of length <= 4 over {0,1,2,5}, {'a','b'}, {3,-1}; non-trivial = at least 2 samples / a full batch"
                    % ((12, 4) if tier == "quick" else (16, 5)),
            "samples": r["samples"], "exhaustive": True, "outcomes": r["outcomes"]}
